@@ -12,6 +12,8 @@
 #include <asmjit/a64.h>
 #include "vcommon.h"
 #include <map>
+#include <functional>
+#include <algorithm>
 
 using namespace asmjit;
 
@@ -22,6 +24,8 @@ static void viol(const std::string& key, const std::string& what, const std::str
   if (!v.count) { v.key = key; v.what = what; v.spec = spec; }
   v.count++;
 }
+
+static void slot_alignment_oracle(FuncNode* fn, const char* arch_name, uint32_t requested, const std::string& spec, const std::string& cfg);
 
 struct Stats { uint64_t programs = 0, invokes = 0, finalize_errors = 0, max_arg_stack = 0, with_locals = 0, big_before_small = 0; };
 static Stats S;
@@ -95,7 +99,8 @@ static void run_x86(Rng& r, Arch arch, const std::string& spec) {
   std::vector<x86::Vec> dlive;
   if (x64) for (uint32_t i = 0; i < r.below(6); i++) { x86::Vec v = cc.new_xmm_sd("d%u", i); cc.xorps(v, v); dlive.push_back(v); }
   x86::Mem stk; bool has_stk = r.below(2) == 0;
-  if (has_stk) { static const uint32_t al[] = { 4, 8, 16, 32 }; stk = cc.new_stack(uint32_t(8 + r.below(20) * 8), al[r.below(x64 ? 4 : 3)]); x86::Mem m = stk; m.set_size(4); cc.mov(m, Imm(0x5A5A5A5A)); }
+  uint32_t stk_req = 0;
+  if (has_stk) { static const uint32_t al[] = { 4, 8, 16, 32 }; stk_req = al[r.below(x64 ? 4 : 3)]; stk = cc.new_stack(uint32_t(8 + r.below(20) * 8), stk_req); x86::Mem m = stk; m.set_size(4); cc.mov(m, Imm(0x5A5A5A5A)); }
   uint32_t k = uint32_t(2 + r.below(5));
   for (uint32_t c = 0; c < k; c++) {
     uint32_t ni, nd;
@@ -121,6 +126,7 @@ static void run_x86(Rng& r, Arch arch, const std::string& spec) {
   S.programs++;
   if (e != Error::kOk) { S.finalize_errors++; return; }
   check_frames<x86::Compiler, x86::Gp, x86::Vec>(cc, x64 ? "x64" : "x86", spec);
+  slot_alignment_oracle(fn, x64 ? "x64" : "x86", stk_req, spec, "multi-invoke program");
 }
 
 static void run_a64(Rng& r, const std::string& spec) {
@@ -169,6 +175,7 @@ static uint64_t helper10(uint64_t a0, uint64_t a1, uint64_t a2, uint64_t a3, uin
   return a0 ^ a9;
 }
 static uint64_t g_out_i[16];
+static uint64_t g_out_stack_addr, g_exec_stack_addr_checked;
 static double g_out_d[17];
 typedef void (*FnI16)(uint64_t, uint64_t, uint64_t, uint64_t, uint64_t, uint64_t, uint64_t, uint64_t, uint64_t, uint64_t, uint64_t, uint64_t, uint64_t, uint64_t, uint64_t, uint64_t);
 typedef void (*FnD17)(double, double, double, double, double, double, double, double, double, double, double, double, double, double, double, double, double);
@@ -200,7 +207,13 @@ static void run_exec(Rng& r, const std::string& spec) {
   for (uint32_t i = 0; i < ni; i++) { x86::Gp g = cc.new_gp64("a%u", i); fn->set_arg(i, g); ia.push_back(g); }
   for (uint32_t i = 0; i < nd; i++) { x86::Vec v = wide_vec ? cc.new_xmm("d%u", i) : cc.new_xmm_sd("d%u", i); fn->set_arg(ni + i, v); da.push_back(v); }
   x86::Mem stk;
-  if (stk_align) { stk = cc.new_stack(64, stk_align); x86::Mem m = stk; m.set_size(8); cc.mov(m, Imm(0x1122334455667788ll & 0x7FFFFFFF)); }
+  if (stk_align) {
+    stk = cc.new_stack(64, stk_align); x86::Mem m = stk; m.set_size(8); cc.mov(m, Imm(0x1122334455667788ll & 0x7FFFFFFF));
+    x86::Gp sa = cc.new_gp64("sa"), sp_ = cc.new_gp64("sp_");
+    cc.lea(sa, stk);
+    cc.mov(sp_, Imm(int64_t(uintptr_t(&g_out_stack_addr))));
+    cc.mov(x86::qword_ptr(sp_), sa);
+  }
   auto do_call = [&]() {
     InvokeNode* inv = nullptr;
     FuncSignature hs = FuncSignature::build<uint64_t, uint64_t, uint64_t, uint64_t, uint64_t, uint64_t, uint64_t, uint64_t, uint64_t, uint64_t, uint64_t>();
@@ -225,6 +238,7 @@ static void run_exec(Rng& r, const std::string& spec) {
   uint64_t iv[16]; double dv[17];
   for (int i = 0; i < 16; i++) iv[i] = 0xA000000000000000ull + uint64_t(i) * 0x0101010101ull + r.below(1000);
   for (int i = 0; i < 17; i++) dv[i] = 1000.5 + i * 3.25 + double(r.below(1000));
+  g_out_stack_addr = 1;
   memset(g_out_i, 0xEE, sizeof g_out_i); memset(g_out_d, 0xEE, sizeof g_out_d); memset(g_helper_seen, 0, sizeof g_helper_seen);
   if (shape == 0) ((FnI16)fnp)(iv[0], iv[1], iv[2], iv[3], iv[4], iv[5], iv[6], iv[7], iv[8], iv[9], iv[10], iv[11], iv[12], iv[13], iv[14], iv[15]);
   else if (shape == 1) ((FnD17)fnp)(dv[0], dv[1], dv[2], dv[3], dv[4], dv[5], dv[6], dv[7], dv[8], dv[9], dv[10], dv[11], dv[12], dv[13], dv[14], dv[15], dv[16]);
@@ -241,6 +255,13 @@ static void run_exec(Rng& r, const std::string& spec) {
     char b[256]; snprintf(b, sizeof b, "double parameter #%u arrived as %g, the caller passed %g (%s)", i, g_out_d[i], dv[i], cfg);
     viol(std::string("cc-exec:parameter-wrong:f64:") + (i >= 8 ? "stack" : "reg"), b, spec); break;
   }
+  if (stk_align) {
+    g_exec_stack_addr_checked++;
+    if (g_out_stack_addr % stk_align) {
+      char b[256]; snprintf(b, sizeof b, "new_stack(64, %u) lives at 0x%llx (%s)", stk_align, (unsigned long long)g_out_stack_addr, cfg);
+      viol("cc-exec:stack-area-misaligned:align" + std::to_string(stk_align), b, spec);
+    }
+  }
   if (with_call) for (int a = 0; a < 10; a++) if (g_helper_seen[a] != uint64_t(0x100 + a)) {
     char b[200]; snprintf(b, sizeof b, "helper argument #%d arrived as 0x%llx, expected 0x%x (%s)", a, (unsigned long long)g_helper_seen[a], 0x100 + a, cfg);
     viol("cc-exec:helper-argument-wrong", b, spec); break;
@@ -249,11 +270,803 @@ static void run_exec(Rng& r, const std::string& spec) {
 }
 #endif
 
+// ---------------------------------------------------------------------------------------------------------------------
+// "pres" workload: callee-saved registers of Compiler-generated functions (allocator -> frame hand-over of clobbered regs).
+// Seeded programs: a function of a random convention (every ABI convention and the light-call conventions) keeps a number
+// of GP and vector values alive - the number is biased to the size of the convention's caller-saved set, so that the next
+// register the allocator reaches for is a callee-saved one - over loops, diamonds, instructions with fixed registers
+// (x86: shift by CL, MUL, SSE4.1 blends through XMM0) and invokes of callees of OTHER conventions (fixed argument/return
+// registers, and a clobber set that may be larger than the function's own). Two oracles:
+//   scan  (all architectures): after finalize() every instruction node of the function is decoded with InstAPI::query_rw_info;
+//         every register written by an instruction or clobbered by an invoked callee's convention that the function's
+//         convention preserves must be in FuncFrame::saved_regs() (else the prolog/epilog cannot restore it);
+//   exec  (x86-64 host): the function is called through a register-image trampoline with every GP/XMM register set to a
+//         sentinel and an entry SP of varying 16-byte phase; afterwards every register of the ABI's preserved set must hold
+//         its entry value, SP must be back, and the addresses of new_stack() areas logged by the body must have the
+//         alignment that was requested.
+struct PStats {
+  uint64_t programs = 0, finalize_errors = 0, executed = 0, signals = 0, timeouts = 0, timeouts_dup_kept = 0, insts_scanned = 0, rw_unknown = 0;
+  uint64_t invokes = 0, cross_conv_invokes = 0, weaker_callee_invokes = 0, loops = 0, diamonds = 0, fixed_reg_ops = 0;
+  uint64_t funcs_writing_preserved = 0, preserved_regs_written = 0, preserved_written_only_by_copies = 0, preserved_clobbered_only_by_callee = 0;
+  uint64_t regs_compared = 0, stack_addr_checked = 0, stack_addr_over_natural = 0, slot_align_checked = 0, slot_align_over_natural = 0, wide_vec_funcs = 0;
+  uint64_t at_pressure_boundary = 0, dup_kept_programs = 0;
+  std::map<std::string, uint64_t> by_conv, refusals;
+  std::map<std::string, std::string> refusal_specs;
+  std::set<std::string> classes;
+  std::vector<std::string> samples;
+};
+static PStats P;
+static bool g_dump = false;
+static FileLogger g_logger(stderr);
+
+enum { FAM_ABI = 0, FAM_LIGHT = 1 };
+struct PConv { CallConvId id; const char* name; int fam; };
+
+// Preserved sets from the ABI documents (NOT from asmjit): SysV AMD64: rbx rbp r12-r15; Microsoft x64 (+vectorcall): rbx rbp
+// rsi rdi r12-r15 xmm6-xmm15; i386 (all): ebx esi edi ebp; AAPCS64: x19-x28, x29, x30 (the return goes through it), d8-d15.
+static void abi_preserved_of(Arch arch, CallConvId id, uint32_t out[4]) {
+  auto B = [](std::initializer_list<int> l) { uint32_t m = 0; for (int i : l) m |= 1u << i; return m; };
+  out[0] = out[1] = out[2] = out[3] = 0;
+  if (arch == Arch::kX64) {
+    if (id == CallConvId::kX64SystemV) out[0] = B({3, 5, 12, 13, 14, 15});
+    else { out[0] = B({3, 5, 6, 7, 12, 13, 14, 15}); out[1] = B({6, 7, 8, 9, 10, 11, 12, 13, 14, 15}); }
+  }
+  else if (arch == Arch::kX86) out[0] = B({3, 5, 6, 7});
+  else { out[0] = B({19, 20, 21, 22, 23, 24, 25, 26, 27, 28, 29, 30}); out[1] = B({8, 9, 10, 11, 12, 13, 14, 15}); }
+}
+
+static uint32_t group_mask(Arch arch, int g) {
+  if (arch == Arch::kX64) return g < 2 ? 0xFFFFu : 0xFFu;
+  if (arch == Arch::kX86) return 0xFFu;
+  return g == 0 ? 0x7FFFFFFFu : g == 1 ? 0xFFFFFFFFu : 0u;
+}
+
+static const char* kGroupName[] = { "gp", "vec", "mask", "x" };
+
+// arg_kept: argument registers of an invoke that the CALLEE's convention preserves (only possible with the light-call conventions)
+struct ScanResult { uint32_t by_inst[4] = {0, 0, 0, 0}, by_noncopy[4] = {0, 0, 0, 0}, by_call[4] = {0, 0, 0, 0}, arg_kept[4] = {0, 0, 0, 0}; };
+
+static void scan_function(FuncNode* fn, Arch arch, ScanResult& sr) {
+  // the epilog (everything behind the exit label) restores registers: its loads are not "writes of the body"
+  for (BaseNode* n = fn->next(); n && n != fn->end_node() && n != fn->exit_node(); n = n->next()) {
+    if (!n->is_inst()) continue;
+    InstNode* in = n->as<InstNode>();
+    const Operand* ops = in->operands_data();
+    size_t nops = in->op_count();
+    if (n->type() == NodeType::kInvoke) {
+      const CallConv& callee = n->as<InvokeNode>()->detail().call_conv();
+      for (int g = 0; g < 4; g++) sr.by_call[g] |= ~callee.preserved_regs(RegGroup(g)) & group_mask(arch, g);
+      if (arch == Arch::kAArch64) sr.by_call[0] |= 1u << 30;   // bl/blr write the link register
+      const FuncDetail& cd = n->as<InvokeNode>()->detail();
+      for (uint32_t ai = 0; ai < cd.arg_count(); ai++) {
+        const FuncValuePack& pk = cd.arg_pack(ai);
+        for (uint32_t vi = 0; vi < pk.count(); vi++) if (pk[vi].is_reg()) {
+          uint32_t g = uint32_t(RegUtils::group_of(pk[vi].reg_type())), id = pk[vi].reg_id();
+          if (g < 4 && id < 32 && (callee.preserved_regs(RegGroup(g)) >> id & 1)) sr.arg_kept[g] |= 1u << id;
+        }
+      }
+    }
+    InstRWInfo rw;
+    if (InstAPI::query_rw_info(arch, in->baseInst(), ops, nops, &rw) != Error::kOk) { P.rw_unknown++; continue; }
+    P.insts_scanned++;
+    bool copy = nops == 2 && ops[0].is_reg() && ops[1].is_reg() && rw.operand(0).is_write_only() &&
+                ops[0].as<Reg>().reg_group() == ops[1].as<Reg>().reg_group();
+    for (size_t i = 0; i < nops; i++) {
+      if (!ops[i].is_reg() || !rw.operand(i).is_write()) continue;
+      const Reg& rg = ops[i].as<Reg>();
+      uint32_t g = uint32_t(rg.reg_group()), id = rg.id();
+      if (g >= 4 || id >= 32) continue;
+      sr.by_inst[g] |= 1u << id;
+      if (!copy) sr.by_noncopy[g] |= 1u << id;
+    }
+  }
+}
+
+// Class of the input: an invoke passes the SAME virtual register in two argument registers and the callee's convention
+// preserves the second one (possible with the light-call conventions only). dupk = those second registers per group.
+static void note_dup_kept(InvokeNode* inv, const std::vector<uint32_t>& vid, uint32_t dupk[4]) {
+  const FuncDetail& fd = inv->detail();
+  for (size_t j = 0; j < vid.size() && j < fd.arg_count(); j++) {
+    if (!vid[j] || !fd.arg(j).is_reg()) continue;
+    bool seen = false;
+    for (size_t i = 0; i < j; i++) if (vid[i] == vid[j] && fd.arg(i).is_reg()) seen = true;
+    if (!seen) continue;
+    uint32_t g = uint32_t(RegUtils::group_of(fd.arg(j).reg_type())), id = fd.arg(j).reg_id();
+    if (g < 4 && id < 32 && (fd.call_conv().preserved_regs(RegGroup(g)) >> id & 1)) dupk[g] |= 1u << id;
+  }
+}
+static bool any_dupk(const uint32_t dupk[4]) { return (dupk[0] | dupk[1] | dupk[2] | dupk[3]) != 0; }
+
+// returns the family-specific preserved set the oracle uses
+static void oracle_preserved(Arch arch, const PConv& cv, const FuncDetail& fd, uint32_t pres[4]) {
+  if (cv.fam == FAM_LIGHT) for (int g = 0; g < 4; g++) pres[g] = fd.call_conv().preserved_regs(RegGroup(g)) & group_mask(arch, g);
+  else abi_preserved_of(arch, fd.call_conv().id(), pres);
+  pres[0] &= ~(1u << (arch == Arch::kAArch64 ? 31 : 4));
+}
+
+static void scan_oracle(FuncNode* fn, Arch arch, const char* arch_name, const PConv& cv, const uint32_t dupk[4], const std::string& spec, const std::string& cfg) {
+  ScanResult sr;
+  scan_function(fn, arch, sr);
+  const FuncFrame& f = fn->frame();
+  uint32_t pres[4];
+  oracle_preserved(arch, cv, fn->detail(), pres);
+  uint32_t fp_id = arch == Arch::kAArch64 ? 29u : 5u;
+  bool any = false;
+  for (int g = 0; g < 4; g++) {
+    uint32_t have = f.saved_regs(RegGroup(g));
+    if (g == 0 && f.has_preserved_fp()) have |= 1u << fp_id;
+    uint32_t wi = sr.by_inst[g] & pres[g], wc = sr.by_call[g] & pres[g];
+    if (wi | wc) any = true;
+    P.preserved_regs_written += uint64_t(__builtin_popcount(wi | wc));
+    P.preserved_written_only_by_copies += uint64_t(__builtin_popcount(wi & ~sr.by_noncopy[g] & ~wc));
+    P.preserved_clobbered_only_by_callee += uint64_t(__builtin_popcount(wc & ~wi));
+    uint32_t miss_i = wi & ~have, miss_c = wc & ~wi & ~have;
+    // class of the failing input: the register is an argument register of an invoke that the callee preserves (written by the
+    // argument marshalling only) vs. any other register
+    uint32_t miss_arg = miss_i & dupk[g];
+    miss_i &= ~miss_arg;
+    if (miss_arg) {
+      char b[500]; snprintf(b, sizeof b, "an invoke passes one virtual register in two argument registers; the copy into the second one writes %s registers 0x%x that the callee's "
+                                         "convention preserves and the function's own convention preserves too, FuncFrame::saved_regs() = 0x%x: they are neither saved by the prolog nor "
+                                         "restored (%s)", kGroupName[g], miss_arg, have, cfg.c_str());
+      viol(std::string("cc-invoke-dup-arg-kept:scan:") + arch_name + ":not-saved:" + kGroupName[g] + ":" + (cv.fam == FAM_LIGHT ? "light" : "abi"), b, spec);
+    }
+    if (miss_i) {
+      char b[400]; snprintf(b, sizeof b, "instructions of the finalized function write callee-saved %s registers 0x%x but FuncFrame::saved_regs() = 0x%x (missing 0x%x, of these "
+                                         "written only by register copies: 0x%x): the prolog/epilog do not restore them (%s)", kGroupName[g], wi, have, miss_i, miss_i & ~sr.by_noncopy[g], cfg.c_str());
+      viol(std::string("cc-scan:") + arch_name + ":callee-saved-written-not-saved:" + kGroupName[g] + ":" + (cv.fam == FAM_LIGHT ? "light" : "abi"), b, spec);
+    }
+    if (miss_c) {
+      char b[400]; snprintf(b, sizeof b, "an invoked callee's convention clobbers %s registers 0x%x that the function's own convention preserves, FuncFrame::saved_regs() = 0x%x "
+                                         "(missing 0x%x) (%s)", kGroupName[g], wc, have, miss_c, cfg.c_str());
+      viol(std::string("cc-scan:") + arch_name + ":callee-clobbered-not-saved:" + kGroupName[g] + ":" + (cv.fam == FAM_LIGHT ? "light" : "abi"), b, spec);
+    }
+  }
+  if (any) P.funcs_writing_preserved++;
+}
+
+// requested new_stack() alignment against the frame (all architectures)
+static void slot_alignment_oracle(FuncNode* fn, const char* arch_name, uint32_t requested, const std::string& spec, const std::string& cfg) {
+  if (!requested) return;
+  const FuncFrame& f = fn->frame();
+  P.slot_align_checked++;
+  if (requested > f.natural_stack_alignment()) P.slot_align_over_natural++;
+  if (f.local_stack_alignment() < requested || f.final_stack_alignment() < requested) {
+    char b[300]; snprintf(b, sizeof b, "a new_stack() area of alignment %u was requested but the frame has local_stack_alignment()=%u final_stack_alignment()=%u (%s)",
+                          requested, f.local_stack_alignment(), f.final_stack_alignment(), cfg.c_str());
+    viol(std::string("cc-frame:stack-slot-alignment-not-in-frame:") + arch_name, b, spec);
+  }
+  if (f.local_stack_size() && requested > 1 && f.local_stack_offset() % std::min<uint32_t>(requested, f.final_stack_alignment())) {
+    char b[300]; snprintf(b, sizeof b, "local_stack_offset()=%u is not a multiple of the requested slot alignment %u (%s)", f.local_stack_offset(), requested, cfg.c_str());
+    viol(std::string("cc-frame:local-offset-misaligned:") + arch_name, b, spec);
+  }
+}
+
+static uint32_t pressure_pick(Rng& r, uint32_t volatile_count, uint32_t cap) {
+  // half of the programs sit at the boundary of the caller-saved set (the next register is a callee-saved one)
+  if (r.below(2) == 0) {
+    static const int d[] = { -1, 0, 0, 0, 1 };
+    int n = int(volatile_count) + d[r.below(5)];
+    P.at_pressure_boundary++;
+    return uint32_t(std::max(1, std::min<int>(n, int(cap))));
+  }
+  return uint32_t(1 + r.below(cap));
+}
+
+#if defined(__x86_64__)
+extern "C" {
+uint64_t pc_in_gp[16], pc_out_gp[16];
+alignas(16) uint8_t pc_in_vec[16][16];
+alignas(16) uint8_t pc_out_vec[16][16];
+uint64_t pc_target, pc_host_rsp, pc_skew;
+void pc_tramp();
+}
+asm(R"ASM(
+.text
+.globl pc_tramp
+.type pc_tramp,@function
+pc_tramp:
+  push %rbx
+  push %rbp
+  push %r12
+  push %r13
+  push %r14
+  push %r15
+  mov %rsp, pc_host_rsp(%rip)
+  sub $40, %rsp
+  sub pc_skew(%rip), %rsp
+.irp n,0,1,2,3,4,5,6,7,8,9,10,11,12,13,14,15
+  movdqu pc_in_vec+16*\n(%rip), %xmm\n
+.endr
+  mov %rsp, pc_in_gp+32(%rip)
+  mov pc_in_gp+0(%rip), %rax
+  mov pc_in_gp+8(%rip), %rcx
+  mov pc_in_gp+16(%rip), %rdx
+  mov pc_in_gp+24(%rip), %rbx
+  mov pc_in_gp+40(%rip), %rbp
+  mov pc_in_gp+48(%rip), %rsi
+  mov pc_in_gp+56(%rip), %rdi
+  mov pc_in_gp+64(%rip), %r8
+  mov pc_in_gp+72(%rip), %r9
+  mov pc_in_gp+80(%rip), %r10
+  mov pc_in_gp+88(%rip), %r11
+  mov pc_in_gp+96(%rip), %r12
+  mov pc_in_gp+104(%rip), %r13
+  mov pc_in_gp+112(%rip), %r14
+  mov pc_in_gp+120(%rip), %r15
+  call *pc_target(%rip)
+  mov %rsp, pc_out_gp+32(%rip)
+  mov %rax, pc_out_gp+0(%rip)
+  mov %rcx, pc_out_gp+8(%rip)
+  mov %rdx, pc_out_gp+16(%rip)
+  mov %rbx, pc_out_gp+24(%rip)
+  mov %rbp, pc_out_gp+40(%rip)
+  mov %rsi, pc_out_gp+48(%rip)
+  mov %rdi, pc_out_gp+56(%rip)
+  mov %r8, pc_out_gp+64(%rip)
+  mov %r9, pc_out_gp+72(%rip)
+  mov %r10, pc_out_gp+80(%rip)
+  mov %r11, pc_out_gp+88(%rip)
+  mov %r12, pc_out_gp+96(%rip)
+  mov %r13, pc_out_gp+104(%rip)
+  mov %r14, pc_out_gp+112(%rip)
+  mov %r15, pc_out_gp+120(%rip)
+.irp n,0,1,2,3,4,5,6,7,8,9,10,11,12,13,14,15
+  movdqu %xmm\n, pc_out_vec+16*\n(%rip)
+.endr
+  mov pc_host_rsp(%rip), %rsp
+  cld
+  pop %r15
+  pop %r14
+  pop %r13
+  pop %r12
+  pop %rbp
+  pop %rbx
+  ret
+.size pc_tramp, .-pc_tramp
+)ASM");
+
+#include <signal.h>
+#include <setjmp.h>
+#include <sys/time.h>
+#include <sys/mman.h>
+static sigjmp_buf pc_jb;
+static volatile sig_atomic_t pc_in_test = 0;
+static volatile int pc_sig = 0;
+static void pc_on_signal(int sig, siginfo_t*, void*) {
+  if (!pc_in_test) { signal(sig, SIG_DFL); raise(sig); return; }
+  pc_sig = sig; pc_in_test = 0;
+  siglongjmp(pc_jb, 1);
+}
+static void pc_install_signals() {
+  static bool done = false;
+  if (done) return;
+  done = true;
+  uint8_t* alt = (uint8_t*)mmap(nullptr, 1 << 18, PROT_READ | PROT_WRITE, MAP_PRIVATE | MAP_ANONYMOUS, -1, 0);
+  stack_t ss; ss.ss_sp = alt; ss.ss_size = 1 << 18; ss.ss_flags = 0;
+  sigaltstack(&ss, nullptr);
+  struct sigaction sa; memset(&sa, 0, sizeof sa);
+  sa.sa_sigaction = pc_on_signal;
+  sa.sa_flags = SA_SIGINFO | SA_ONSTACK | SA_NODEFER;
+  sigemptyset(&sa.sa_mask);
+  int sigs[] = { SIGSEGV, SIGBUS, SIGILL, SIGFPE, SIGTRAP, SIGVTALRM };
+  for (int s : sigs) sigaction(s, &sa, nullptr);
+}
+static int __attribute__((noinline)) pc_guarded_run() {
+  pc_sig = 0;
+  struct itimerval tv;
+  if (sigsetjmp(pc_jb, 1) == 0) {
+    memset(&tv, 0, sizeof tv); tv.it_value.tv_usec = 100000;     // CPU time of this process: a generated function runs for microseconds
+    setitimer(ITIMER_VIRTUAL, &tv, nullptr);
+    pc_in_test = 1;
+    pc_tramp();
+    pc_in_test = 0;
+    memset(&tv, 0, sizeof tv);
+    setitimer(ITIMER_VIRTUAL, &tv, nullptr);
+    return 0;
+  }
+  memset(&tv, 0, sizeof tv);
+  setitimer(ITIMER_VIRTUAL, &tv, nullptr);
+  asm volatile("cld" ::: "memory");
+  return pc_sig ? pc_sig : -1;
+}
+
+// Callees of the executed functions: each writes junk to EVERY register its own convention lets it clobber.
+static volatile uint64_t pc_helper_calls = 0;
+#define PC_JUNK_GP_SYSV "mov $0xD1D1D1D1, %%ecx\n mov %%rcx, %%rdx\n mov %%rcx, %%rsi\n mov %%rcx, %%rdi\n mov %%rcx, %%r8\n mov %%rcx, %%r9\n mov %%rcx, %%r10\n mov %%rcx, %%r11\n"
+#define PC_JUNK_GP_WIN  "mov $0xD1D1D1D1, %%ecx\n mov %%rcx, %%rdx\n mov %%rcx, %%r8\n mov %%rcx, %%r9\n mov %%rcx, %%r10\n mov %%rcx, %%r11\n"
+#define PC_JUNK_X(n) "pcmpeqd %%xmm" #n ", %%xmm" #n "\n"
+__attribute__((noinline, no_sanitize("address"))) static uint64_t pc_helper_sysv(uint64_t a, uint64_t b, uint64_t c, double x, double y) {
+  pc_helper_calls = pc_helper_calls + 1;
+  uint64_t xb; double s = x + y; memcpy(&xb, &s, 8);
+  uint64_t rv = a * 3 + (b ^ (c << 7)) + (xb >> 11);
+  asm volatile(PC_JUNK_GP_SYSV PC_JUNK_X(0) PC_JUNK_X(1) PC_JUNK_X(2) PC_JUNK_X(3) PC_JUNK_X(4) PC_JUNK_X(5) PC_JUNK_X(6) PC_JUNK_X(7)
+               PC_JUNK_X(8) PC_JUNK_X(9) PC_JUNK_X(10) PC_JUNK_X(11) PC_JUNK_X(12) PC_JUNK_X(13) PC_JUNK_X(14) PC_JUNK_X(15)
+               ::: "rcx", "rdx", "rsi", "rdi", "r8", "r9", "r10", "r11", "xmm0", "xmm1", "xmm2", "xmm3", "xmm4", "xmm5", "xmm6", "xmm7",
+                   "xmm8", "xmm9", "xmm10", "xmm11", "xmm12", "xmm13", "xmm14", "xmm15", "memory");
+  return rv;
+}
+__attribute__((noinline, ms_abi, no_sanitize("address"))) static uint64_t pc_helper_win(uint64_t a, uint64_t b, uint64_t c, double x, double y) {
+  pc_helper_calls = pc_helper_calls + 1;
+  uint64_t xb; double s = x + y; memcpy(&xb, &s, 8);
+  uint64_t rv = a * 5 + (b ^ (c << 3)) + (xb >> 13);
+  asm volatile(PC_JUNK_GP_WIN PC_JUNK_X(0) PC_JUNK_X(1) PC_JUNK_X(2) PC_JUNK_X(3) PC_JUNK_X(4) PC_JUNK_X(5)
+               ::: "rcx", "rdx", "r8", "r9", "r10", "r11", "xmm0", "xmm1", "xmm2", "xmm3", "xmm4", "xmm5", "memory");
+  return rv;
+}
+alignas(64) static uint64_t pc_io[160];
+#endif
+
+static const PConv kConvX64[] = { { CallConvId::kX64SystemV, "sysv", FAM_ABI }, { CallConvId::kX64Windows, "win64", FAM_ABI }, { CallConvId::kVectorCall, "vectorcall", FAM_ABI },
+                                  { CallConvId::kLightCall2, "light2", FAM_LIGHT }, { CallConvId::kLightCall3, "light3", FAM_LIGHT }, { CallConvId::kLightCall4, "light4", FAM_LIGHT } };
+static const PConv kConvX86[] = { { CallConvId::kCDecl, "cdecl", FAM_ABI }, { CallConvId::kStdCall, "stdcall", FAM_ABI }, { CallConvId::kFastCall, "fastcall", FAM_ABI },
+                                  { CallConvId::kRegParm3, "regparm3", FAM_ABI }, { CallConvId::kLightCall2, "light2", FAM_LIGHT }, { CallConvId::kLightCall3, "light3", FAM_LIGHT },
+                                  { CallConvId::kLightCall4, "light4", FAM_LIGHT } };
+static const PConv kConvA64[] = { { CallConvId::kCDecl, "aapcs64", FAM_ABI }, { CallConvId::kLightCall2, "light2", FAM_LIGHT }, { CallConvId::kLightCall3, "light3", FAM_LIGHT },
+                                  { CallConvId::kLightCall4, "light4", FAM_LIGHT } };
+
+static uint32_t volatile_count(Arch arch, const FuncDetail& fd, int g, uint32_t reserved) {
+  uint32_t m = group_mask(arch, g) & ~fd.call_conv().preserved_regs(RegGroup(g));
+  if (g == 0) m &= ~(1u << (arch == Arch::kAArch64 ? 31 : 4));
+  if (g == 0 && arch == Arch::kAArch64) m &= ~(1u << 18);
+  uint32_t n = uint32_t(__builtin_popcount(m));
+  return n > reserved ? n - reserved : 1;
+}
+
+static void run_x86_pres(Rng& r, Arch arch, bool exec, const std::string& spec) {
+  bool x64 = arch == Arch::kX64;
+  const char* arch_name = exec ? "x64exec" : x64 ? "x64" : "x86";
+  const PConv& cv = x64 ? kConvX64[r.below(6)] : kConvX86[r.below(7)];
+  CodeHolder code;
+  bool host_avx = false, host_sse41 = true;
+#if defined(__x86_64__)
+  static JitRuntime* jit = nullptr;
+  if (exec) {
+    if (!jit) jit = new JitRuntime();
+    host_avx = jit->cpu_features().x86().has_avx();
+    host_sse41 = jit->cpu_features().x86().has_sse4_1();
+    if (code.init(jit->environment(), jit->cpu_features()) != Error::kOk) { fprintf(stderr, "init failed\n"); exit(2); }
+  }
+  else
+#endif
+  {
+    host_avx = true;
+    Environment env(arch, SubArch::kUnknown, Vendor::kUnknown, r.below(3) == 0 ? Platform::kWindows : Platform::kLinux, PlatformABI::kUnknown);
+    if (code.init(env) != Error::kOk) { fprintf(stderr, "init failed\n"); exit(2); }
+  }
+  if (g_dump) code.set_logger(&g_logger);
+  x86::Compiler cc(&code);
+  FuncSignature sig(cv.id);
+  sig.set_ret(TypeId::kVoid);
+  sig.add_arg(TypeId::kUIntPtr); sig.add_arg(TypeId::kUIntPtr);
+  FuncNode* fn = cc.add_func(sig);
+  if (!fn) { fprintf(stderr, "add_func failed\n"); exit(2); }
+  bool fp = r.below(3) == 0;
+  if (fp) fn->frame().set_preserved_fp();
+  int vmode = int(r.below(4));                 // 0,1: SSE xmm  2: AVX-encoded xmm  3: AVX ymm
+  if (!host_avx && vmode >= 2) vmode = 0;
+  bool avx = vmode >= 2, ymm = vmode == 3;
+  if (avx) fn->frame().set_avx_enabled();      // documented duty of the user of AVX instructions / YMM registers
+  uint32_t rs = x64 ? 8 : 4;
+  x86::Gp io = cc.new_gpz("io"), nn = cc.new_gpz("n");
+  fn->set_arg(0, io); fn->set_arg(1, nn);
+  uint32_t vol_g = volatile_count(arch, fn->detail(), 0, 1);   // one register holds the io pointer
+  uint32_t vol_v = volatile_count(arch, fn->detail(), 1, 0);
+  uint32_t ng = pressure_pick(r, vol_g, x64 ? 14 : 7), nv = pressure_pick(r, vol_v, x64 ? 17 : 9), nd = uint32_t(r.below(3));
+  if (nv > nd + 1 && nd) nv -= nd;   // the scalar doubles share the vector file
+  std::vector<x86::Gp> g; std::vector<x86::Vec> v, d;
+  for (uint32_t i = 0; i < ng; i++) { x86::Gp x = cc.new_gpz("g%u", i); cc.mov(x, x86::ptr(io, int32_t(i * rs))); g.push_back(x); }
+  for (uint32_t i = 0; i < nv; i++) {
+    x86::Vec x = ymm ? cc.new_ymm("v%u", i) : cc.new_xmm("v%u", i);
+    if (ymm) cc.vmovdqu(x, x86::ptr(io, int32_t(256 + i * 32))); else if (avx) cc.vmovdqu(x, x86::ptr(io, int32_t(256 + i * 32))); else cc.movdqu(x, x86::ptr(io, int32_t(256 + i * 32)));
+    v.push_back(x);
+  }
+  for (uint32_t i = 0; i < nd; i++) { x86::Vec x = cc.new_xmm_sd("d%u", i); if (avx) cc.vmovsd(x, x86::qword_ptr(io, int32_t(832 + i * 8))); else cc.movsd(x, x86::qword_ptr(io, int32_t(832 + i * 8))); d.push_back(x); }
+  // stack areas with a requested alignment: the body logs their addresses
+  uint32_t n_stk = uint32_t(r.below(3)), max_req = 0;
+  uint32_t stk_al[2] = { 0, 0 };
+  for (uint32_t i = 0; i < n_stk; i++) {
+    static const uint32_t al[] = { 4, 8, 16, 16, 32, 32, 64 };
+    stk_al[i] = al[r.below(x64 ? 7 : 6)];
+    x86::Mem stk = cc.new_stack(uint32_t(stk_al[i] * (1 + r.below(3)) + r.below(2) * 8), stk_al[i]);
+    x86::Gp t = cc.new_gpz("sa%u", i);
+    cc.lea(t, stk);
+    cc.mov(x86::ptr(io, int32_t(896 + i * 8)), t);
+    x86::Mem m = stk; m.set_size(4); cc.mov(m, Imm(0x5A5A5A5A));
+    max_req = std::max(max_req, stk_al[i]);
+  }
+  uint32_t n_inv = 0, n_cross = 0, n_weaker = 0, n_loops = 0, n_dia = 0, n_fixed = 0;
+  uint32_t dupk[4] = { 0, 0, 0, 0 };
+  int budget = int(6 + r.below(22));
+  std::function<void(int, int)> block = [&](int depth, int count) {
+    for (int s = 0; s < count && budget > 0; s++) {
+      budget--;
+      uint32_t k = uint32_t(r.below(20));
+      if (k < 4 && ng) {
+        uint32_t a = uint32_t(r.below(ng)), b = uint32_t(r.below(ng));
+        switch (r.below(4)) { case 0: cc.add(g[a], g[b]); break; case 1: cc.xor_(g[a], g[b]); break; case 2: cc.sub(g[a], g[b]); break; default: cc.imul(g[a], g[b]); }
+      }
+      else if (k < 6 && ng >= 2) {
+        uint32_t a = uint32_t(r.below(ng)), b = uint32_t(r.below(ng)); if (a == b) b = (a + 1) % ng;
+        if (r.below(2)) cc.shl(g[a], g[b].r8()); else cc.ror(g[a], g[b].r8());
+        n_fixed++;
+      }
+      else if (k < 7 && ng >= 3) {
+        uint32_t a = uint32_t(r.below(ng)), b = (a + 1 + uint32_t(r.below(ng - 1))) % ng, c = uint32_t(r.below(ng));
+        cc.mul(g[a], g[b], g[c]);   // xDX:xAX
+        n_fixed++;
+      }
+      else if (k < 11 && nv) {
+        uint32_t a = uint32_t(r.below(nv)), b = uint32_t(r.below(nv)), c = uint32_t(r.below(nv));
+        if (ymm) { if (r.below(2)) cc.vxorpd(v[a], v[b], v[c]); else cc.vorps(v[a], v[b], v[c]); }
+        else if (avx) { if (r.below(2)) cc.vpaddq(v[a], v[b], v[c]); else cc.vpxor(v[a], v[b], v[c]); }
+        else switch (r.below(3)) { case 0: cc.paddq(v[a], v[b]); break; case 1: cc.pxor(v[a], v[b]); break; default: cc.psubd(v[a], v[b]); }
+      }
+      else if (k < 14 && nv >= 2 && !ymm && host_sse41) {
+        uint32_t a = uint32_t(r.below(nv)), c = (a + 1 + uint32_t(r.below(nv - 1))) % nv, b = uint32_t(r.below(nv));
+        switch (r.below(3)) { case 0: cc.pblendvb(v[a], v[b], v[c]); break; case 1: cc.blendvpd(v[a], v[b], v[c]); break; default: cc.blendvps(v[a], v[b], v[c]); }   // mask in XMM0
+        n_fixed++;
+      }
+      else if (k < 15 && nd) {
+        uint32_t a = uint32_t(r.below(nd)), b = uint32_t(r.below(nd));
+        if (avx) cc.vaddsd(d[a], d[a], d[b]); else cc.addsd(d[a], d[b]);
+      }
+      else if (k < 16 && depth < 2 && budget > 2) {
+        x86::Gp cnt = cc.new_gp32("cnt");
+        cc.mov(cnt, Imm(int64_t(1 + r.below(3))));
+        Label L = cc.new_label();
+        cc.bind(L);
+        block(depth + 1, int(2 + r.below(5)));
+        cc.dec(cnt);
+        cc.jnz(L);
+        n_loops++;
+      }
+      else if (k < 17 && depth < 2 && budget > 2 && ng) {
+        Label Else = cc.new_label(), End = cc.new_label();
+        cc.test(g[r.below(ng)], Imm(int64_t(1) << r.below(8)));
+        cc.jz(Else);
+        block(depth + 1, int(1 + r.below(4)));
+        cc.jmp(End);
+        cc.bind(Else);
+        block(depth + 1, int(r.below(4)));
+        cc.bind(End);
+        n_dia++;
+      }
+      else if (k < 19) {
+        // invoke: (uintptr, uintptr, uintptr, double, double) -> uintptr; the callee's convention is independent of the function's
+        CallConvId callee_id; Imm target(int64_t(0x1000));
+#if defined(__x86_64__)
+        bool fixed_sig = false;
+        if (exec) {
+          uint32_t which = uint32_t(r.below(3));
+          if (which == 2) {
+            // a callee that obeys every light-call convention: writes RAX, XMM0 and XMM1 only (assembled once)
+            static void* stub = nullptr;
+            if (!stub) {
+              CodeHolder sc;
+              if (sc.init(jit->environment(), jit->cpu_features()) != Error::kOk) { fprintf(stderr, "init failed\n"); exit(2); }
+              x86::Assembler sa(&sc);
+              sa.pcmpeqd(x86::xmm0, x86::xmm0); sa.pcmpeqd(x86::xmm1, x86::xmm1); sa.mov(x86::rax, Imm(0x5151515151515151ll)); sa.ret();
+              if (jit->add(&stub, &sc) != Error::kOk) { fprintf(stderr, "stub failed\n"); exit(2); }
+            }
+            callee_id = kConvX64[3 + r.below(3)].id;
+            target = Imm(int64_t(uintptr_t(stub)));
+          }
+          else {
+            callee_id = which ? CallConvId::kX64Windows : CallConvId::kX64SystemV;
+            target = which ? Imm(int64_t(uintptr_t(&pc_helper_win))) : Imm(int64_t(uintptr_t(&pc_helper_sysv)));
+            fixed_sig = true;
+          }
+        }
+        else
+#endif
+          callee_id = x64 ? kConvX64[r.below(6)].id : kConvX86[r.below(7)].id;
+        FuncSignature hs(callee_id);
+        hs.set_ret(TypeId::kUIntPtr);
+        uint32_t hi = fixed_sig ? 3 : uint32_t(r.below(6)), hd = fixed_sig ? 2 : uint32_t(r.below(4));
+        for (uint32_t i = 0; i < hi; i++) hs.add_arg(TypeId::kUIntPtr);
+        for (uint32_t i = 0; i < hd; i++) hs.add_arg(TypeId::kFloat64);
+        InvokeNode* inv = nullptr;
+        if (cc.invoke(Out(inv), target, hs) != Error::kOk || !inv) { std::string k = std::string(arch_name) + ":invoke"; if (!P.refusals[k]++) P.refusal_specs[k] = spec; continue; }
+        std::vector<uint32_t> vid(hi + hd, 0);
+        for (uint32_t i = 0; i < hi; i++) { if (ng && r.below(4)) { const x86::Gp& x = g[r.below(ng)]; inv->set_arg(i, x); vid[i] = x.id(); } else inv->set_arg(i, Imm(int64_t(0x100 + i))); }
+        for (uint32_t i = 0; i < hd; i++) {
+          if (d.empty()) { x86::Vec x = cc.new_xmm_sd("dx"); if (avx) cc.vxorpd(x, x, x); else cc.xorps(x, x); d.push_back(x); nd++; }
+          const x86::Vec& x = d[r.below(nd)]; inv->set_arg(hi + i, x); vid[hi + i] = x.id();
+        }
+        note_dup_kept(inv, vid, dupk);
+        if (ng && r.below(3)) inv->set_ret(0, g[r.below(ng)]); else { x86::Gp rv = cc.new_gpz("rv"); inv->set_ret(0, rv); }
+        n_inv++;
+        if (callee_id != fn->detail().call_conv().id()) n_cross++;
+        {
+          CallConv callee_cc; callee_cc.init(callee_id, code.environment());
+          bool weaker = false;
+          for (int gi = 0; gi < 2; gi++) if (fn->detail().call_conv().preserved_regs(RegGroup(gi)) & ~callee_cc.preserved_regs(RegGroup(gi)) & group_mask(arch, gi)) weaker = true;
+          if (weaker) n_weaker++;
+        }
+      }
+      else if (ng) cc.add(g[r.below(ng)], Imm(int64_t(1 + r.below(100))));
+    }
+  };
+  block(0, 1000);
+  for (uint32_t i = 0; i < g.size(); i++) cc.mov(x86::ptr(io, int32_t(i * rs)), g[i]);
+  for (uint32_t i = 0; i < v.size(); i++) { if (avx) cc.vmovdqu(x86::ptr(io, int32_t(256 + i * 32)), v[i]); else cc.movdqu(x86::ptr(io, int32_t(256 + i * 32)), v[i]); }
+  for (uint32_t i = 0; i < d.size() && i < 8; i++) { if (avx) cc.vmovsd(x86::qword_ptr(io, int32_t(832 + i * 8)), d[i]); else cc.movsd(x86::qword_ptr(io, int32_t(832 + i * 8)), d[i]); }
+  cc.ret();
+  cc.end_func();
+  Error e = cc.finalize();
+  P.programs++;
+  char cfg[260];
+  snprintf(cfg, sizeof cfg, "conv=%s preserved-fp=%d vec=%s live gp=%u vec=%u f64=%u (caller-saved gp=%u vec=%u) loops=%u diamonds=%u fixed-register ops=%u invokes=%u stack areas=%u/%u",
+           cv.name, int(fp), ymm ? "avx-ymm" : avx ? "avx-xmm" : "sse", ng, nv, nd, vol_g, vol_v, n_loops, n_dia, n_fixed, n_inv, stk_al[0], stk_al[1]);
+  if (e != Error::kOk) {
+    std::string k = std::string(arch_name) + ":finalize:" + DebugUtils::error_as_string(e) + ":" + (cv.fam == FAM_LIGHT ? "light" : "abi");
+    P.finalize_errors++; if (!P.refusals[k]++) P.refusal_specs[k] = spec; return;
+  }
+  P.invokes += n_inv; P.cross_conv_invokes += n_cross; P.weaker_callee_invokes += n_weaker; P.loops += n_loops; P.diamonds += n_dia; P.fixed_reg_ops += n_fixed;
+  if (ymm) P.wide_vec_funcs++;
+  P.by_conv[std::string(arch_name) + ":" + cv.name]++;
+  {
+    char cl[160]; snprintf(cl, sizeof cl, "%s|%s|fp%d|v%d|g%u|v%u|L%u|D%u|F%u|I%u|W%d|S%u", arch_name, cv.name, int(fp), vmode, ng, nv, std::min(n_loops, 2u), std::min(n_dia, 2u), std::min(n_fixed, 3u),
+                           std::min(n_inv, 2u), int(n_weaker != 0), max_req);
+    P.classes.insert(cl);
+  }
+  if (P.samples.size() < 2 && P.programs % 37 == 5) P.samples.push_back(std::string(arch_name) + ": " + cfg);
+  if (any_dupk(dupk)) P.dup_kept_programs++;
+  scan_oracle(fn, arch, arch_name, cv, dupk, spec, cfg);
+  slot_alignment_oracle(fn, arch_name, max_req, spec, cfg);
+#if defined(__x86_64__)
+  if (!exec) return;
+  void* fnp = nullptr;
+  if (jit->add(&fnp, &code) != Error::kOk) { if (!P.refusals["x64exec:jit-add"]++) P.refusal_specs["x64exec:jit-add"] = spec; return; }
+  pc_install_signals();
+  const FuncDetail& fd = fn->detail();
+  if (!fd.arg(0).is_reg() || !fd.arg(1).is_reg()) { fprintf(stderr, "unexpected argument location\n"); exit(2); }
+  for (int i = 0; i < 16; i++) pc_in_gp[i] = 0xE1E1E1E100001000ull + uint64_t(i) * 0x0101u;
+  for (int i = 0; i < 16; i++) for (int j = 0; j < 16; j++) pc_in_vec[i][j] = uint8_t(0x21 + ((i * 67 + j * 13) % 89));
+  for (int i = 0; i < 160; i++) pc_io[i] = r.next();
+  for (int i = 0; i < 8; i++) { double dv = 1.5 + double(r.below(1000)); memcpy(&pc_io[104 + i], &dv, 8); }
+  pc_io[112] = pc_io[113] = 0;
+  pc_in_gp[fd.arg(0).reg_id()] = uint64_t(uintptr_t(pc_io));
+  pc_in_gp[fd.arg(1).reg_id()] = 3;
+  pc_skew = 16 * r.below(8);
+  pc_target = uint64_t(uintptr_t(fnp));
+  memset(pc_out_gp, 0, sizeof pc_out_gp); memset(pc_out_vec, 0, sizeof pc_out_vec);
+  int sg = pc_guarded_run();
+  P.executed++;
+  if (sg == SIGVTALRM) { P.timeouts++; if (any_dupk(dupk)) P.timeouts_dup_kept++; jit->release(fnp); return; }
+  if (sg) {
+    P.signals++;
+    char b[400]; snprintf(b, sizeof b, "signal %d inside the generated function or a callee (%s)", sg, cfg);
+    viol(std::string(any_dupk(dupk) ? "cc-invoke-dup-arg-kept:exec:" : "cc-exec:") + "signal:" + (sg == SIGSEGV ? "SIGSEGV" : sg == SIGBUS ? "SIGBUS" : sg == SIGILL ? "SIGILL" : sg == SIGFPE ? "SIGFPE" : "other") + ":" + (cv.fam == FAM_LIGHT ? "light" : "abi"), b, spec);
+    jit->release(fnp);
+    return;
+  }
+  uint32_t pres[4];
+  oracle_preserved(arch, cv, fd, pres);
+  const char* fam = cv.fam == FAM_LIGHT ? "light" : "abi";
+  const std::string kx = any_dupk(dupk) ? "cc-invoke-dup-arg-kept:exec:" : "cc-exec:";
+  static const char* gpn[] = { "rax", "rcx", "rdx", "rbx", "rsp", "rbp", "rsi", "rdi", "r8", "r9", "r10", "r11", "r12", "r13", "r14", "r15" };
+  if (pc_out_gp[4] != pc_in_gp[4]) {
+    char b[300]; snprintf(b, sizeof b, "SP after return = entry SP %+lld (%s)", (long long)(pc_out_gp[4] - pc_in_gp[4]), cfg);
+    viol(kx + "sp-after-return:" + fam, b, spec);
+  }
+  for (uint32_t i = 0; i < 16; i++) if (pres[0] >> i & 1) {
+    P.regs_compared++;
+    if (pc_out_gp[i] != pc_in_gp[i]) {
+      char b[400]; snprintf(b, sizeof b, "callee-saved %s: entry 0x%llx, after return 0x%llx; FuncFrame::saved_regs(gp)=0x%x (%s)", gpn[i], (unsigned long long)pc_in_gp[i], (unsigned long long)pc_out_gp[i],
+                            fn->frame().saved_regs(RegGroup::kGp), cfg);
+      viol(kx + "callee-saved-not-preserved:gp:" + fam, b, spec); break;
+    }
+  }
+  for (uint32_t i = 0; i < 16; i++) if (pres[1] >> i & 1) {
+    P.regs_compared++;
+    if (memcmp(pc_out_vec[i], pc_in_vec[i], 16) != 0) {
+      std::string w = "callee-saved xmm" + std::to_string(i) + ": entry " + hexstr(pc_in_vec[i], 16) + ", after return " + hexstr(pc_out_vec[i], 16) + "; FuncFrame::saved_regs(vec)=" +
+                      std::to_string(fn->frame().saved_regs(RegGroup::kVec)) + " (" + cfg + ")";
+      viol(kx + "callee-saved-not-preserved:vec:" + fam, w, spec); break;
+    }
+  }
+  for (uint32_t i = 0; i < n_stk; i++) {
+    P.stack_addr_checked++;
+    if (stk_al[i] > 16) P.stack_addr_over_natural++;
+    uint64_t addr = pc_io[112 + i];
+    if (addr % stk_al[i]) {
+      char b[400]; snprintf(b, sizeof b, "new_stack() area requested with alignment %u lives at 0x%llx (entry SP 0x%llx) (%s)", stk_al[i], (unsigned long long)addr, (unsigned long long)(pc_in_gp[4] - 8), cfg);
+      viol(kx + "stack-area-misaligned:align" + std::to_string(stk_al[i]), b, spec);
+    }
+    if (addr >= pc_in_gp[4] - 8 || addr < pc_in_gp[4] - (1u << 20)) {
+      char b[400]; snprintf(b, sizeof b, "new_stack() area at 0x%llx is not below the return address slot 0x%llx (%s)", (unsigned long long)addr, (unsigned long long)(pc_in_gp[4] - 8), cfg);
+      viol(kx + "stack-area-outside-frame", b, spec);
+    }
+  }
+  jit->release(fnp);
+#endif
+}
+
+static void run_a64_pres(Rng& r, const std::string& spec) {
+  const Arch arch = Arch::kAArch64;
+  const PConv& cv = kConvA64[r.below(3) == 0 ? 0 : r.below(4)];
+  CodeHolder code;
+  bool apple = r.below(3) == 0;
+  Environment env(arch, SubArch::kUnknown, Vendor::kUnknown, apple ? Platform::kOSX : Platform::kLinux, apple ? PlatformABI::kDarwin : PlatformABI::kGNU);
+  if (code.init(env) != Error::kOk) { fprintf(stderr, "init failed\n"); exit(2); }
+  if (g_dump) code.set_logger(&g_logger);
+  a64::Compiler cc(&code);
+  FuncSignature sig(cv.id);
+  sig.set_ret(TypeId::kVoid);
+  sig.add_arg(TypeId::kUIntPtr); sig.add_arg(TypeId::kUIntPtr);
+  FuncNode* fn = cc.add_func(sig);
+  if (!fn) { fprintf(stderr, "add_func failed\n"); exit(2); }
+  bool fp = r.below(3) == 0;
+  if (fp) fn->frame().set_preserved_fp();
+  a64::Gp io = cc.new_gp64("io"), nn = cc.new_gp64("n");
+  fn->set_arg(0, io); fn->set_arg(1, nn);
+  uint32_t vol_g = volatile_count(arch, fn->detail(), 0, 1), vol_v = volatile_count(arch, fn->detail(), 1, 0);
+  uint32_t ng = pressure_pick(r, vol_g, 27), nv = pressure_pick(r, std::min(vol_v, 8u), 12);   // AAPCS64: v8 is the first callee-saved one
+  std::vector<a64::Gp> g; std::vector<a64::Vec> d;
+  for (uint32_t i = 0; i < ng; i++) { a64::Gp x = cc.new_gp64("g%u", i); cc.ldr(x, a64::ptr(io, int32_t(i * 8))); g.push_back(x); }
+  for (uint32_t i = 0; i < nv; i++) { a64::Vec x = cc.new_vec_d("d%u", i); cc.ldr(x, a64::ptr(io, int32_t(512 + i * 8))); d.push_back(x); }
+  uint32_t max_req = 0, stk_al0 = 0;
+  if (r.below(2) == 0) {
+    static const uint32_t al[] = { 4, 8, 16, 16 };   // above 16 the AArch64 prolog does not align SP (known finding of drv_frame), not repeated here
+    stk_al0 = al[r.below(4)];
+    a64::Mem stk = cc.new_stack(uint32_t(stk_al0 * (1 + r.below(3))), stk_al0);
+    a64::Gp t = cc.new_gp64("sv");
+    cc.mov(t, Imm(0x5A5A));
+    cc.str(t, stk);
+    max_req = stk_al0;
+  }
+  uint32_t n_inv = 0, n_cross = 0, n_weaker = 0, n_loops = 0, n_dia = 0;
+  uint32_t dupk[4] = { 0, 0, 0, 0 };
+  int budget = int(6 + r.below(22));
+  std::function<void(int, int)> block = [&](int depth, int count) {
+    for (int s = 0; s < count && budget > 0; s++) {
+      budget--;
+      uint32_t k = uint32_t(r.below(20));
+      if (k < 6) {
+        uint32_t a = uint32_t(r.below(ng)), b = uint32_t(r.below(ng)), c = uint32_t(r.below(ng));
+        switch (r.below(3)) { case 0: cc.add(g[a], g[b], g[c]); break; case 1: cc.eor(g[a], g[b], g[c]); break; default: cc.sub(g[a], g[b], g[c]); }
+      }
+      else if (k < 10) {
+        uint32_t a = uint32_t(r.below(nv)), b = uint32_t(r.below(nv)), c = uint32_t(r.below(nv));
+        if (r.below(2)) cc.fadd(d[a], d[b], d[c]); else cc.fmov(d[a], d[b]);
+      }
+      else if (k < 12 && depth < 2 && budget > 2) {
+        a64::Gp cnt = cc.new_gp64("cnt");
+        cc.mov(cnt, Imm(int64_t(1 + r.below(3))));
+        Label L = cc.new_label();
+        cc.bind(L);
+        block(depth + 1, int(2 + r.below(5)));
+        cc.subs(cnt, cnt, Imm(1));
+        cc.b_ne(L);
+        n_loops++;
+      }
+      else if (k < 14 && depth < 2 && budget > 2) {
+        Label Else = cc.new_label(), End = cc.new_label();
+        cc.tbz(g[r.below(ng)], Imm(int64_t(r.below(8))), Else);
+        block(depth + 1, int(1 + r.below(4)));
+        cc.b(End);
+        cc.bind(Else);
+        block(depth + 1, int(r.below(4)));
+        cc.bind(End);
+        n_dia++;
+      }
+      else if (k < 19) {
+        CallConvId callee_id = kConvA64[r.below(2) == 0 ? 0 : r.below(4)].id;
+        FuncSignature hs(callee_id);
+        hs.set_ret(r.below(4) == 0 ? TypeId::kFloat64 : TypeId::kUIntPtr);
+        uint32_t hi = uint32_t(r.below(7)), hd = uint32_t(r.below(5));
+        for (uint32_t i = 0; i < hi; i++) hs.add_arg(TypeId::kUIntPtr);
+        for (uint32_t i = 0; i < hd; i++) hs.add_arg(TypeId::kFloat64);
+        a64::Gp target = cc.new_gp64("t");
+        cc.mov(target, Imm(int64_t(0x1000 + n_inv * 16)));
+        InvokeNode* inv = nullptr;
+        if (cc.invoke(Out(inv), target, hs) != Error::kOk || !inv) { if (!P.refusals["a64:invoke"]++) P.refusal_specs["a64:invoke"] = spec; continue; }
+        std::vector<uint32_t> vid(hi + hd, 0);
+        for (uint32_t i = 0; i < hi; i++) { if (r.below(4)) { const a64::Gp& x = g[r.below(ng)]; inv->set_arg(i, x); vid[i] = x.id(); } else inv->set_arg(i, Imm(int64_t(0x100 + i))); }
+        for (uint32_t i = 0; i < hd; i++) { const a64::Vec& x = d[r.below(nv)]; inv->set_arg(hi + i, x); vid[hi + i] = x.id(); }
+        note_dup_kept(inv, vid, dupk);
+        if (hs.ret() == TypeId::kFloat64) inv->set_ret(0, d[r.below(nv)]);
+        else if (r.below(3)) inv->set_ret(0, g[r.below(ng)]); else { a64::Gp rv = cc.new_gp64("rv"); inv->set_ret(0, rv); }
+        n_inv++;
+        if (callee_id != fn->detail().call_conv().id()) n_cross++;
+        {
+          CallConv callee_cc; callee_cc.init(callee_id, code.environment());
+          bool weaker = false;
+          for (int gi = 0; gi < 2; gi++) if (fn->detail().call_conv().preserved_regs(RegGroup(gi)) & ~callee_cc.preserved_regs(RegGroup(gi)) & group_mask(arch, gi)) weaker = true;
+          if (weaker) n_weaker++;
+        }
+      }
+      else cc.add(g[r.below(ng)], g[r.below(ng)], Imm(int64_t(1 + r.below(100))));
+    }
+  };
+  block(0, 1000);
+  for (uint32_t i = 0; i < ng; i++) cc.str(g[i], a64::ptr(io, int32_t(i * 8)));
+  for (uint32_t i = 0; i < nv; i++) cc.str(d[i], a64::ptr(io, int32_t(512 + i * 8)));
+  cc.ret();
+  cc.end_func();
+  Error e = cc.finalize();
+  P.programs++;
+  char cfg[260];
+  snprintf(cfg, sizeof cfg, "conv=%s%s preserved-fp=%d live gp=%u f64=%u (caller-saved gp=%u vec=%u) loops=%u diamonds=%u invokes=%u stack area=%u",
+           cv.name, apple ? "/apple" : "", int(fp), ng, nv, vol_g, vol_v, n_loops, n_dia, n_inv, stk_al0);
+  if (e != Error::kOk) {
+    std::string k = std::string("a64:finalize:") + DebugUtils::error_as_string(e) + ":" + (cv.fam == FAM_LIGHT ? "light" : "abi");
+    P.finalize_errors++; if (!P.refusals[k]++) P.refusal_specs[k] = spec; return;
+  }
+  P.invokes += n_inv; P.cross_conv_invokes += n_cross; P.weaker_callee_invokes += n_weaker; P.loops += n_loops; P.diamonds += n_dia;
+  P.by_conv[std::string("a64:") + cv.name + (apple ? "/apple" : "")]++;
+  {
+    char cl[160]; snprintf(cl, sizeof cl, "a64|%s|%d|fp%d|g%u|v%u|L%u|D%u|I%u|W%d|S%u", cv.name, int(apple), int(fp), ng, nv, std::min(n_loops, 2u), std::min(n_dia, 2u), std::min(n_inv, 2u), int(n_weaker != 0), max_req);
+    P.classes.insert(cl);
+  }
+  if (P.samples.size() < 2 && P.programs % 37 == 5) P.samples.push_back(std::string("a64: ") + cfg);
+  if (any_dupk(dupk)) P.dup_kept_programs++;
+  scan_oracle(fn, arch, "a64", cv, dupk, spec, cfg);
+  slot_alignment_oracle(fn, "a64", max_req, spec, cfg);
+}
+
+static std::string pres_summary(const std::string& arch) {
+  std::string o = "{\"pres\":1,\"arch\":" + jstr(arch);
+  auto add = [&](const char* k, uint64_t v) { o += std::string(",\"") + k + "\":" + std::to_string(v); };
+  add("programs", P.programs); add("finalize_errors", P.finalize_errors); add("executed", P.executed); add("signals", P.signals); add("timeouts", P.timeouts); add("timeouts_dup_kept", P.timeouts_dup_kept);
+  add("insts_scanned", P.insts_scanned); add("rw_unknown", P.rw_unknown); add("invokes", P.invokes); add("cross_conv_invokes", P.cross_conv_invokes);
+  add("weaker_callee_invokes", P.weaker_callee_invokes); add("loops", P.loops); add("diamonds", P.diamonds); add("fixed_reg_ops", P.fixed_reg_ops);
+  add("funcs_writing_preserved", P.funcs_writing_preserved); add("preserved_regs_written", P.preserved_regs_written);
+  add("preserved_written_only_by_copies", P.preserved_written_only_by_copies); add("preserved_clobbered_only_by_callee", P.preserved_clobbered_only_by_callee);
+  add("regs_compared", P.regs_compared); add("stack_addr_checked", P.stack_addr_checked); add("stack_addr_over_natural", P.stack_addr_over_natural);
+  add("slot_align_checked", P.slot_align_checked); add("slot_align_over_natural", P.slot_align_over_natural); add("wide_vec_funcs", P.wide_vec_funcs);
+  add("at_pressure_boundary", P.at_pressure_boundary); add("dup_kept_programs", P.dup_kept_programs);
+#if defined(__x86_64__)
+  add("helper_calls", pc_helper_calls);
+#endif
+  auto dump_map = [&](const char* name, const std::map<std::string, uint64_t>& m) {
+    o += std::string(",\"") + name + "\":{";
+    bool first = true;
+    for (auto& kv : m) { if (!first) o += ","; first = false; o += jstr(kv.first) + ":" + std::to_string(kv.second); }
+    o += "}";
+  };
+  dump_map("by_conv", P.by_conv); dump_map("refusals", P.refusals);
+  o += ",\"refusal_specs\":{";
+  { bool first = true; for (auto& kv : P.refusal_specs) { if (!first) o += ","; first = false; o += jstr(kv.first) + ":" + jstr(kv.second); } }
+  o += "}";
+  o += ",\"classes\":[";
+  { bool first = true; char hb[24]; for (auto& s : P.classes) { if (!first) o += ","; first = false; snprintf(hb, sizeof hb, "\"%016llx\"", (unsigned long long)fnv1a(s.data(), s.size())); o += hb; } }
+  o += "],\"samples\":[";
+  for (size_t i = 0; i < P.samples.size(); i++) { if (i) o += ","; o += jstr(P.samples[i]); }
+  o += "],\"violations\":[";
+  bool firstv = true;
+  for (auto& kv : g_viol) {
+    if (!firstv) o += ",";
+    firstv = false;
+    o += "{\"key\":" + jstr(kv.second.key) + ",\"what\":" + jstr(kv.second.what) + ",\"spec\":" + jstr(kv.second.spec) + ",\"count\":" + std::to_string(kv.second.count) + "}";
+  }
+  o += "]}";
+  return o;
+}
+
 int main(int argc, char** argv) {
   Args a(argc, argv);
   uint64_t seed = a.u64("seed", 1), count = a.u64("count", 1000), first = a.u64("first", 0);
   std::string arch = a.str("arch", "x64");
   if (a.has("only")) { first = a.u64("only", 0); count = 1; }
+  g_dump = a.has("dump");
+  if (a.str("mode", "") == "pres") {
+    for (uint64_t i = first; i < first + count; i++) {
+      Rng r(seed * 1000003ull + i * 7919ull + 0x9E5ull + (arch == "x64" ? 1 : arch == "x86" ? 2 : arch == "a64" ? 3 : 4));
+      std::string spec = "--mode pres --arch " + arch + " --seed " + std::to_string(seed) + " --only " + std::to_string(i);
+      if (arch == "x64") run_x86_pres(r, Arch::kX64, false, spec);
+      else if (arch == "x86") run_x86_pres(r, Arch::kX86, false, spec);
+      else if (arch == "a64") run_a64_pres(r, spec);
+#if defined(__x86_64__)
+      else if (arch == "x64exec") run_x86_pres(r, Arch::kX64, true, spec);
+#endif
+      else { printf("{\"harness_error\":\"bad --arch\"}\n"); return 3; }
+    }
+    puts(pres_summary(arch).c_str());
+    return 0;
+  }
   for (uint64_t i = first; i < first + count; i++) {
     Rng r(seed * 1000003ull + i * 7919ull + (arch == "x64" ? 1 : arch == "x86" ? 2 : 3));
     std::string spec = "--arch " + arch + " --seed " + std::to_string(seed) + " --only " + std::to_string(i);
@@ -272,7 +1085,13 @@ int main(int argc, char** argv) {
 #else
                   0
 #endif
-                  ) + ",\"with_locals\":" + std::to_string(S.with_locals) + ",\"big_before_small\":" + std::to_string(S.big_before_small) + ",\"violations\":[";
+                  ) + ",\"stack_addr_checked\":" + std::to_string(
+#if defined(__x86_64__)
+                  g_exec_stack_addr_checked
+#else
+                  0
+#endif
+                  ) + ",\"slot_align_checked\":" + std::to_string(P.slot_align_checked) + ",\"with_locals\":" + std::to_string(S.with_locals) + ",\"big_before_small\":" + std::to_string(S.big_before_small) + ",\"violations\":[";
   bool firstv = true;
   for (auto& kv : g_viol) {
     if (!firstv) o += ",";
